@@ -319,6 +319,16 @@ func (ix *idxProver) minLen(X ssa.Value, at *ssa.BasicBlock) (int, string) {
 				case token.NEQ:
 					boundT = 1
 				}
+			} else if isNilConst(cnd.Y) && sameSeq(cnd.X, X) {
+				// FindStringSubmatch returns nil exactly when there is no match: not nil is not empty
+				if cl := callOf(canon(X)); cl != nil && isMethod(calleeObj(cl), "regexp", "Regexp", "FindStringSubmatch") {
+					switch cnd.Op {
+					case token.EQL:
+						boundF = 1
+					case token.NEQ:
+						boundT = 1
+					}
+				}
 			}
 		case *ssa.Call:
 			if isFunc(calleeObj(cnd), "strings", "HasPrefix") && sameSeq(cnd.Call.Args[0], X) {
